@@ -75,3 +75,23 @@ Theorem C09_leaf_documents_independent_heading : forall c fin d1 lv ws d2 o1 o2,
     = Ok (o1 ++ html_of [SpecDoc.BHeading 0 lv 0 0 (map AWord ws)] ++ o2).
 Proof. exact leaf_docs_independent_heading. Qed.
 Print Assumptions C09_leaf_documents_independent_heading.
+
+(* block quotes nested to any depth around plain paragraphs: a quoted document, an empty line,
+   another one convert to the two conversions side by side, for EVERY pair; and the fact behind
+   all three independence theorems - the printer md_of is a homomorphism on documents without
+   reference definitions, for ANY blocks and either tab spelling *)
+Require Import GM.proofs.SpecDocApp.
+Theorem C09_quoted_documents_independent : forall c fin fuel d1 d2 o1 o2,
+  hardwraps c = false -> qdoc fuel d1 = true -> qdoc fuel d2 = true ->
+  ConvertModel c (md_of false true d1) = Ok o1 ->
+  ConvertModel c (md_of false fin d2) = Ok o2 ->
+  ConvertModel c (md_of false true d1 ++ nl ++ md_of false fin d2) = Ok (o1 ++ o2).
+Proof. exact quoted_docs_independent. Qed.
+Print Assumptions C09_quoted_documents_independent.
+Theorem C09_printer_is_homomorphic : forall tabs fin d1 d2,
+  d1 <> nil -> d2 <> nil ->
+  flat_map block_defs d1 = nil -> flat_map block_defs d2 = nil ->
+  map (line_md tabs) (doc_lines d1) <> nil -> map (line_md tabs) (doc_lines d2) <> nil ->
+  md_of tabs fin (d1 ++ d2) = md_of tabs true d1 ++ nl ++ md_of tabs fin d2.
+Proof. exact md_of_app. Qed.
+Print Assumptions C09_printer_is_homomorphic.
